@@ -34,6 +34,8 @@ type c01Sc struct {
 	Engines   int        `json:"engines"`
 	Progs     []*Program `json:"progs"`
 	Ops       []c01Op    `json:"ops"`
+	// RegOnly: registered templates exist in the engine only (no loader has a copy to fall back on)
+	RegOnly bool `json:"registered_only,omitempty"`
 }
 
 type propC01 struct{}
@@ -69,6 +71,7 @@ func (propC01) Gen(seed uint64, ex map[string]bool) interface{} {
 	sc.Drop = pick(r, []int{0, 0, 12, 50})
 	sc.ClockStep = pick(r, []int64{0, 1e6, 1e9, 3600e9})
 	sc.Engines = r.Range(1, 3)
+	sc.RegOnly = r.P(40)
 	np := r.Range(1, 3)
 	maxOps := 40
 	if ex["tier:thorough"] {
@@ -84,7 +87,7 @@ func (propC01) Gen(seed uint64, ex map[string]bool) interface{} {
 	reg := map[[2]int]bool{}
 	for i := 0; i < nops; i++ {
 		e, p := r.N(sc.Engines), r.N(np)
-		switch c := r.N(27); {
+		switch c := r.N(28); {
 		case c < 4 || (!reg[[2]int{e, p}] && r.P(90)):
 			sc.Ops = append(sc.Ops, c01Op{K: "reg", E: e, P: p})
 			reg[[2]int{e, p}] = true
@@ -128,6 +131,9 @@ func (propC01) Gen(seed uint64, ex map[string]bool) interface{} {
 		case c < 24:
 			pr := sc.Progs[p]
 			sc.Ops = append(sc.Ops, c01Op{K: "hold", E: e, P: p, Name: pr.Templates[r.N(len(pr.Templates))].Name})
+		case c < 26 && c >= 25:
+			// a busy engine: many other names registered or loaded meanwhile (bounded tables, eviction)
+			sc.Ops = append(sc.Ops, c01Op{K: "flood", E: e, Mode: pick(r, []int{40, 130, 130, 260, 520})})
 		case c < 25:
 			// a global (re)defined in mid-history: later renders see the new value, earlier templates included
 			sc.Ops = append(sc.Ops, c01Op{K: "setglobal", E: e, Name: pick(r, []string{"g1", "gn", "late"}), Src: fmt.Sprintf("late-%d", i)})
@@ -241,18 +247,24 @@ func (propC01) Run(scI interface{}) (o *Outcome) {
 				src := t.Src()
 				if err := ce.e.RegisterString(t.Name, src); err == nil {
 					ce.cur[t.Name] = src
-					ce.loader.SetTemplate(t.Name, src)
+					if !sc.RegOnly {
+						ce.loader.SetTemplate(t.Name, src)
+					}
 				}
 			}
 		case "regbad":
 			if err := ce.e.RegisterString(op.Name, op.Src); err == nil {
 				ce.cur[op.Name] = op.Src
-				ce.loader.SetTemplate(op.Name, op.Src)
+				if !sc.RegOnly {
+					ce.loader.SetTemplate(op.Name, op.Src)
+				}
 			}
 		case "rereg":
 			if err := ce.e.RegisterString(op.Name, op.Src); err == nil {
 				ce.cur[op.Name] = op.Src
-				ce.loader.SetTemplate(op.Name, op.Src)
+				if !sc.RegOnly {
+					ce.loader.SetTemplate(op.Name, op.Src)
+				}
 			}
 		case "lonly":
 			for _, t := range pr.Templates {
@@ -281,7 +293,9 @@ func (propC01) Run(scI interface{}) (o *Outcome) {
 				dst.e.RegisterTemplate(alias, t)
 				_, src, _, _ := twig.VerifTemplateMeta(t)
 				dst.cur[alias] = src
-				dst.loader.SetTemplate(alias, src)
+				if !sc.RegOnly {
+					dst.loader.SetTemplate(alias, src)
+				}
 			}
 		case "hold":
 			if t, err := ce.e.Load(op.Name); err == nil {
@@ -324,6 +338,19 @@ func (propC01) Run(scI interface{}) (o *Outcome) {
 				return fail("O1-pristine-replica", "render of a template obtained from Load differs from its source on a fresh engine",
 					fmt.Sprintf("op #%d engine %d\n held template source %q\n history engine: %s\n fresh engine:   %s", oi, op.E, tail(h.src, 300), got, want))
 			}
+		case "flood":
+			// unrelated templates come and go on the same engine; they are nobody's dependency, so the replica does
+			// not need them
+			for k := 0; k < op.Mode; k++ {
+				n := fmt.Sprintf("flood_%d_%d", oi, k)
+				if k%2 == 0 {
+					ce.e.RegisterString(n, "F{{ 1 + 1 }}")
+				} else {
+					ce.loader.SetTemplate(n, "L{{ 2 + 2 }}")
+					ce.e.Load(n)
+				}
+			}
+			o.Probes["flood_ops"]++
 		case "setglobal":
 			ce.e.AddGlobal(op.Name, op.Src)
 			ce.late = append(ce.late, [2]string{op.Name, op.Src})
@@ -441,7 +468,9 @@ func (propC01) Run(scI interface{}) (o *Outcome) {
 				if data, err := twig.SerializeCompiledTemplate(ct); err == nil {
 					if dst.e.LoadFromCompiledData(data) == nil {
 						dst.cur[ct.Name] = ct.Source
-						dst.loader.SetTemplate(ct.Name, ct.Source)
+						if !sc.RegOnly {
+							dst.loader.SetTemplate(ct.Name, ct.Source)
+						}
 					}
 				}
 			}
@@ -451,6 +480,9 @@ func (propC01) Run(scI interface{}) (o *Outcome) {
 			cached := twig.VerifCached(x.e)
 			names := make([]string, 0, len(cached))
 			for n := range cached {
+				if strings.HasPrefix(n, "flood_") && strHash(n)%16 != uint64(oi%16) {
+					continue // of the unrelated flood templates a rotating sixteenth is inspected per operation
+				}
 				names = append(names, n)
 			}
 			sort.Strings(names)
